@@ -7,8 +7,7 @@ from impl import quiet, Metric
 from common import close, score_to_float
 
 RULE = ("pairs of non-empty binary masks in 1-3-D: single voxels, one-voxel-thick lines/sheets, rings/shells with enclosed "
-        "cavities, objects on the array border, nested and disjoint objects, far-apart objects (offsets up to 600 along "
-        "one axis); every case also embedded at a random offset in a larger array and cropped tight; with and without "
+        "cavities, objects on the array border, nested and disjoint objects, far-apart objects (offsets up to 600, and single voxels 50000-70000 apart, along one axis); every case also embedded at a random offset in a larger array and cropped tight; with and without "
         "label selection; non-trivial = the two borders differ and an object is thin, has a cavity, or touches the array border")
 
 
@@ -147,8 +146,55 @@ def corpus(ctx):
     one_case(ctx, s1, s2, "corpus.1d-gap")
 
 
+def very_far(ctx, n):
+    """single voxels tens of thousands of voxels apart (squared distances beyond 2^31)"""
+    rng = ctx.rng
+    for k in range(n):
+        L = rng.choice([50001, 60001, 70001])
+        shape = (L,) if rng.random() < 0.6 else (2, L)
+        a, b = np.zeros(shape, np.uint8), np.zeros(shape, np.uint8)
+        a[(0,) * (len(shape) - 1) + (0,)] = 1
+        b[(0,) * (len(shape) - 1) + (L - 1 - rng.randint(0, 3),)] = 1
+        ctx.count("very_far_apart")
+        one_case(ctx, a, b, f"veryfar{k}")
+
+
+def pipeline_cases(ctx, n):
+    """get_list_metric(ASSD, ALL) of matched pairs vs brute force on the uncropped instance masks; label values incl.
+    pairs that sum to 2^bits, instances far (> crop padding) from all other foreground"""
+    import evalutil as E
+    rng = ctx.rng
+    for k in range(n):
+        H, W = rng.randint(8, 14), rng.randint(16, 28)
+        ref = np.zeros((H, W), np.int64)
+        pred = np.zeros((H, W), np.int64)
+        dt, labs = rng.choice([(np.uint8, [128, 3]), (np.uint8, [100, 7]), (np.uint16, [32768, 5]), (np.uint8, [255, 1]), (np.uint16, [65535, 2])])
+        y0, x0 = rng.randint(0, 2), rng.randint(0, 2)
+        h, w = rng.randint(3, H - 3), rng.randint(3, 8)
+        ref[y0:y0 + h, x0:x0 + w] = labs[0]
+        pred[y0:y0 + h, x0:x0 + w + rng.choice([0, 1, 1])] = labs[0]
+        ref[H - 2:H, W - 3:W - 1] = labs[1]
+        pred[H - 2:H, W - 3:W - 1] = labs[1]
+        ref, pred = ref.astype(dt), pred.astype(dt)
+        cfg = E.mk_cfg("MATCHED", ["ASSD", "IOU"])
+        res = E.run_impl(cfg, pred, ref)
+        inp = {"shape": [H, W], "dtype": str(np.dtype(dt)), "ref": gen.arr_json(ref), "pred": gen.arr_json(pred), "sel": None, "pipeline": True, "src": f"pipe{k}"}
+        ctx.case(inp, True)
+        ctx.count("pipeline_assd")
+        if isinstance(res, str):
+            ctx.violation(f"evaluation raised {res}", inp, key={"kind": "raises"})
+            continue
+        got = sorted(res["ungrouped"]["list_ASSD"]) if not isinstance(res["ungrouped"]["list_ASSD"], str) else res["ungrouped"]["list_ASSD"]
+        want = sorted(oracle.assd_brute(ref == l, pred == l) for l in labs)
+        if isinstance(got, str) or len(got) != len(want) or any(not close(a, b) for a, b in zip(got, want)):
+            ctx.violation(f"per-instance ASSD through the evaluator is {got}, but the definition on the instance masks gives {want} "
+                          f"(the crop must not change ASSD)", inp, impl=got, model=want, key={"kind": "assd-embedding"})
+
+
 def run(ctx):
     corpus(ctx)
+    very_far(ctx, ctx.scale(2, 8))
+    pipeline_cases(ctx, ctx.scale(25, 250))
     run_cases(ctx, ctx.scale(600, 6000), "rand")
 
 
@@ -158,5 +204,18 @@ def search(ctx):
 
 def replay(ctx, rec):
     i = rec["input"]
+    if i.get("pipeline"):
+        import evalutil as E
+        dt = np.dtype(i["dtype"])
+        ref = np.array(i["ref"], dtype=dt).reshape(i["shape"])
+        pred = np.array(i["pred"], dtype=dt).reshape(i["shape"])
+        res = E.run_impl(E.mk_cfg("MATCHED", ["ASSD", "IOU"]), pred, ref)
+        ctx.case(i, True)
+        labs = sorted(set(np.unique(ref).tolist()) - {0})
+        want = sorted(oracle.assd_brute(ref == l, pred == l) for l in labs)
+        got = sorted(res["ungrouped"]["list_ASSD"]) if isinstance(res, dict) else res
+        if isinstance(got, str) or len(got) != len(want) or any(not close(a, b) for a, b in zip(got, want)):
+            ctx.violation(f"per-instance ASSD through the evaluator is {got}, definition gives {want}", i, key={"kind": "assd-embedding"})
+        return
     one_case(ctx, np.array(i["ref"], dtype=np.uint8).reshape(i["shape"]), np.array(i["pred"], dtype=np.uint8).reshape(i["shape"]),
              "replay", sel=i.get("sel"))
